@@ -283,6 +283,21 @@ def _cb_value(kind, req):
     return not any(ascii_upper(k) == 'AUTHORIZATION' for k, _ in req['headers'])
 
 
+def _wrapped_factory(policy):
+    """the policy's own factory still runs; a token of the documented form (32 hex digits, fresh each call) is replaced by
+    the case's deterministic stand-in, anything else (empty, constant, short) is passed through so that the defect shows"""
+    real = type(policy)._token_factory
+    seen = []
+
+    def factory():
+        t = real()
+        ok = isinstance(t, str) and len(t) == 32 and all(c in '0123456789abcdef' for c in t) and t not in seen
+        seen.append(t)
+        del seen[:-4]
+        return _cur['fresh'] if ok else t
+    return factory
+
+
 def _app(cfg):
     key = json.dumps(cfg, sort_keys=True)
     hit = _apps.get(key)
@@ -299,10 +314,10 @@ def _app(cfg):
         policy = I['csrf'].LegacySessionCSRFStoragePolicy()
     elif cfg['storage'] == 'session':
         policy = I['csrf'].SessionCSRFStoragePolicy()
-        policy._token_factory = lambda: _cur['fresh']
+        policy._token_factory = _wrapped_factory(policy)
     else:
         policy = I['csrf'].CookieCSRFStoragePolicy()
-        policy._token_factory = lambda: _cur['fresh']
+        policy._token_factory = _wrapped_factory(policy)
     log = {'ran': 0, 'cb': []}
     d = cfg['defaults']
 
@@ -355,6 +370,8 @@ def _app(cfg):
         return lambda c: c.include(includeme)
 
     for name in prog['order']:
+        if name == 'policy' and prog.get('default_policy') and cfg['storage'] == 'legacy':
+            continue            # no set_csrf_storage_policy: Configurator.add_default_security installs the legacy policy
         nested(stmts[name], prog.get('depth', {}).get(name, 0))(config)
 
     config.add_tween('harness.c12.prop.capture_tween_factory')
@@ -896,6 +913,8 @@ def kinds(case, obs):
           'stmt-defaults-%s' % ('absent' if case['config']['defaults'] is None else
                                 'before-view' if _defaults_first(case['config']) else 'after-view'),
           'stmt-nesting-%d' % max([0] + list((case['config'].get('program') or {}).get('depth', {}).values())),
+          'stmt-policy-%s' % ('default' if (case['config'].get('program') or {}).get('default_policy')
+                               and case['config']['storage'] == 'legacy' else 'explicit'),
           'caller-list' if case['caller'] is not None else 'settings-list']
     try:
         for r, st in zip(case['reqs'], obs[0]):
